@@ -315,6 +315,9 @@ def r07_9(ctx):
 
 
 def run(ctx):
+    ctx.rule("R07.10", "the tokenizer's run scanner (SmallCharSet::nonmember_prefix_len) examines every byte: no '&', '<' or quote the serializer relies on can be skipped")
+    from .C13 import prefix_scan_rule
+    ctx.guard("R07.10", "scan", lambda: prefix_scan_rule(ctx, "R07.10"))
     ctx.rule("R07.9", "serialize() builds the serializer from the caller's options unchanged and passes their traversal scope")
     ctx.guard("R07.9", "entry", lambda: r07_9(ctx))
     ctx.rule("R07.8", "the parser maps the serializer's replacements back: a named reference ending in ';' is decoded in text and in attribute values whatever follows it (shared with R14.6)")
